@@ -427,8 +427,79 @@ class World08(World):
         self.event("const_check", n)
         return None
 
+    def op_const_transient(self, op, rng):
+        """Create-use-drop histories: each value is built, wrapped, compared and hashed, then DROPPED before
+        the next one is built (so a later container can land on a freed one's address), and compared with
+        long-lived clones of everything seen so far.  Catches caches keyed by object identity."""
+        import code_data
+        import gc
+
+        C = code_data.Constant
+        env = {"__builtins__": {}, "frozenset": frozenset}
+        kept = []  # (expr, long-lived clone, fingerprint)
+        n = 0
+        for e in op["exprs"]:
+            try:
+                v = eval(compile(e, "<zoo>", "eval"), env)
+            except Exception:
+                continue
+            want_fp = fp.const_fp(v)
+            out = sched._outcome(lambda: (C(v) == C(v), hash(C(v))))
+            if out[0] != "ok" or out[1][0] is not True:
+                self.violate("K1-constant-eq-raises" if out[0] != "ok" else "V2-not-reflexive", "Constant", const_kind(v), {"a": e, "mode": "transient"})
+                return None
+            for (ek, k, kfp) in kept[-24:]:
+                n += 1
+                got = sched._outcome(lambda: (C(v) == C(k), C(k) == C(v), hash(C(v)) == hash(C(k))))
+                want = want_fp == kfp
+                if got[0] != "ok":
+                    self.violate("K1-constant-eq-raises", "Constant", const_kind(v), {"a": e, "b": ek, "mode": "transient"})
+                    return None
+                if got[1][0] != want or got[1][1] != want:
+                    inv = "K2-constant-too-coarse" if (got[1][0] or got[1][1]) else "K2-constant-too-fine"
+                    self.violate(inv, "Constant", "%s~%s" % tuple(sorted([const_kind(v), const_kind(k)])), {"a": e, "b": ek, "mode": "transient-after-drop", "eq": list(got[1][:2]), "cpython_same": want})
+                    return None
+                if want and not got[1][2]:
+                    self.violate("V4-equal-but-hash-differs", "Constant", "Constant[%s]" % const_kind(v), {"a": e, "b": ek, "mode": "transient-after-drop"})
+                    return None
+            kept.append((e, clone_leaf(v), want_fp))
+            del v
+            if op.get("gc"):
+                gc.collect()
+        self.count("constant_transient_pairs_checked", n)
+        self.count("fault_create_drop_history")
+        self.faults_fired += 1
+        self.api_ops += 1
+        self.event("const_transient", n)
+        return None
+
+    def op_drop(self, op, rng):
+        """Drop a pool member (and collect garbage): later values may reuse its addresses."""
+        import gc
+
+        i = op["in"][0]
+        s = self.slots.pop(i, None)
+        self.pool = [x for x in self.pool if x.id != i]
+        self.code_fp_of.pop(i, None)
+        del s
+        gc.collect()
+        self.count("fault_drop_pool_member")
+        self.event("drop", i)
+        return None
+
     def finish(self):
         pass
+
+
+def transient_exprs(rng):
+    fams = workload.CONFUSABLE_FAMILIES + workload.SAME_FAMILIES
+    out = []
+    wrap = rng.choice(["(%s, 2)", "(%s,)", "frozenset([%s, 'q'])", "((%s, 1), 0)", "(0, %s, None)"])
+    for fam in rng.sample(fams, min(len(fams), rng.randint(2, 5))):
+        for e in fam:
+            out.append(wrap % e)
+    rng.shuffle(out)
+    return out
 
 
 def collect_constants(d, out):
@@ -503,6 +574,10 @@ def run_c08(seed, tree, tier, known):
             if w.stop:
                 return w, cfg
         w.probes["confusable_table_enumerated"] = 1
+    if rng.chance(0.3):
+        w.execute({"op": "const_transient", "exprs": transient_exprs(rng), "gc": rng.chance(0.5)}, rng)
+        if w.stop:
+            return w, cfg
     if cfg["const_pairs"]:
         ex = [zoo_expr(rng) for _ in range(cfg["const_pairs"])]
         fam = rng.choice(workload.CONFUSABLE_FAMILIES + workload.SAME_FAMILIES)
@@ -591,4 +666,10 @@ def run_c08(seed, tree, tier, known):
                     w.count("fault_identity_loss_recompile")
         if new is not None and new.kind == "data":
             datas.append(new)
+        if len(datas) > 3 and rng.chance(0.2) and not w.stop:
+            victim = rng.choice(datas[1:])
+            datas = [d for d in datas if d.id != victim.id]
+            if victim.id in w.slots:
+                w.execute({"op": "drop", "in": [victim.id]}, rng)
+            del victim
     return w, cfg
